@@ -71,9 +71,18 @@ Example C10_repaired_witnesses :
   /\ (exists g, istep f0_4lay (IApply DL FHalf) = Ok g /\ coherentb g = true /\ nl g = 2%nat /\ nvgl g = 3%nat).
 Proof. vm_compute. split; eexists; repeat split; reflexivity. Qed.
 
+(* sliceDimensions(TSTEP=[2,0,1]) and a reversed selection combined with a LAY selector: SDATE/STIME = the FIRST selected
+   step (not the earliest), TSTEP = difference of the first two selected steps *)
+Example C10_slice_first_selected :
+  (exists g, istep f0 (ISlice [(DT, true, [2%nat; 0%nat; 1%nat])]) = Ok g /\ coherentb g = true
+             /\ stime g = 20000 /\ tstep g = -20000 /\ tflag g = Some (2%nat, [(2000001, 20000); (2000001, 0); (2000001, 10000)]))
+  /\ (exists g, istep f0 (ISlice [(DT, false, [2%nat; 1%nat; 0%nat]); (DL, false, [1%nat])]) = Ok g /\ coherentb g = true
+                /\ stime g = 20000 /\ tstep g = -10000 /\ nl g = 1%nat /\ nvgl g = 2%nat).
+Proof. vm_compute. split; eexists; repeat split; reflexivity. Qed.
+
 (* ---- non-vacuity -------------------------------------------------------------------------------------- *)
 Definition iops_ex : list iop :=
-  [ISlice DT 1 2 1; ISubset [1%nat]; IRename 1%nat 5%nat; IApply DL FHalf; IStack 2 [(2000001, 10000); (2000001, 20000)]; ICopy; IApply DR FHalf].
+  [ISlice [(DT, false, [1%nat; 2%nat])]; ISubset [1%nat]; IRename 1%nat 5%nat; IApply DL FHalf; IStack 2 [(2000001, 10000); (2000001, 20000)]; ICopy; IApply DR FHalf].
 Example C10_hyp_inhabited :
   coherentb f0 = true /\ forallb proved_op iops_ex = true /\ irun_region f0 iops_ex = 0%nat
   /\ exists g, irun f0 iops_ex = Ok g /\ coherentb g = true /\ nt g = 4%nat /\ nvars g = 1%nat /\ stime g = 10000 /\ nvgl g = 2%nat /\ varlist g = [5%nat].
